@@ -132,7 +132,10 @@ def implied(e, pol):
         # if ((p = f())) ...
         out |= implied(e["l"], pol)
         return out
-    out.add(("G", _reg(show(e), e), pol, deps_of(e)))
+    d = deps_of(e)
+    if k == "Ref" and e.get("rk") == "local" and (e.get("ct") or e.get("t")) in ("bool", "const bool"):
+        d = d | {("flag",)}
+    out.add(("G", _reg(show(e), e), pol, d))
     # smart-pointer / optional style: `if (p)` on OpCall 'operator bool' appears as Call short 'operator bool'
     if k == "Call" and e.get("short") == "operator bool" and e.get("recv") is not None:
         out |= implied(e["recv"], pol)
@@ -143,9 +146,9 @@ def contradicts(st, new_facts):
     """a flag local known true/false cannot take the other value (only bare-identifier flag facts are used, so an
     unrelated imprecision elsewhere cannot make reachable code look dead)"""
     for f in new_facts:
-        if f[0] == "G" and f[1].isidentifier():
+        if f[0] == "G" and ("flag",) in f[3]:
             for g in st:
-                if g[0] == "G" and g[1] == f[1] and g[2] != f[2]:
+                if g[0] == "G" and g[1] == f[1] and g[2] != f[2] and ("flag",) in g[3]:
                     return True
     return False
 
@@ -153,7 +156,7 @@ def contradicts(st, new_facts):
 def flag_facts(st):
     if st is BOT:
         return frozenset()
-    return frozenset((f[1], f[2]) for f in st if f[0] == "G" and f[1].isidentifier() and len(f[3]) <= 2)
+    return frozenset((f[1], f[2]) for f in st if f[0] == "G" and ("flag",) in f[3])
 
 
 def merge_partitions(states, cap=8):
@@ -220,6 +223,7 @@ class Flow:
         self.mode = mode
         self.muted = 0
         self.partition = True
+        self.loop_stack = []  # canonical descriptions of the loops enclosing the node being visited
         self.exits = []  # (kind, node, state) for every return / fall-off-end, final pass only
 
     # ------------------------------------------------------------ hooks
@@ -299,7 +303,8 @@ class Flow:
                 st = kill(st, d)
             if st is not BOT and e["op"] == "=" and is_node(e["l"]) and e["l"]["k"] == "Ref" and \
                     e["l"].get("rk") == "local" and is_node(e["r"]) and e["r"]["k"] == "Lit" and e["r"].get("lk") == "bool":
-                st = st | {("G", e["l"]["name"], bool(e["r"]["val"]), frozenset({("v", e["l"]["id"]), ("n", e["l"]["name"])}))}
+                st = st | {("G", e["l"]["name"], bool(e["r"]["val"]),
+                           frozenset({("v", e["l"]["id"]), ("n", e["l"]["name"]), ("flag",)}))}
             return self._visit(e, st)
         if k == "Unary" and e["op"] in ("++", "--"):
             st = self.expr(e["e"], st)
@@ -509,7 +514,7 @@ class Flow:
         if is_node(i) and (v.get("ct") or v.get("t")) in ("bool", "const bool"):
             me = frozenset({("v", v["id"]), ("n", v["name"])})
             if i["k"] == "Lit" and i.get("lk") == "bool":
-                st = st | {("G", v["name"], bool(i["val"]), me)}
+                st = st | {("G", v["name"], bool(i["val"]), me | {("flag",)})}
             else:
                 st = st | {("F", v["name"], _reg("def:" + show(i), i), me | deps_of(i))}
         r = self.on_decl(v, st)
@@ -548,6 +553,27 @@ class Flow:
                 back = self.expr(s["inc"], back)
             return back, join(f, b), r
 
+        if k == "RangeFor":
+            self.loop_stack.append("each " + show(s["range"]))
+        elif s.get("cond") is not None:
+            self.loop_stack.append("while " + show(s["cond"]))
+        else:
+            self.loop_stack.append("forever")
+        try:
+            ex, b, c, r = self._loop_body(s, st, once)
+        finally:
+            self.loop_stack.pop()
+        # variables scoped to the loop go out of scope: facts about them are meaningless afterwards
+        scoped = []
+        if k == "For" and is_node(s.get("init")) and s["init"]["k"] == "Decl":
+            scoped = [(v["id"], v["name"]) for v in s["init"].get("vars", [])]
+        elif k == "RangeFor":
+            scoped = [(s["var"]["id"], s["var"]["name"])]
+        for vid, nm in scoped:
+            ex = kill(kill(ex, ("v", vid)), ("n", nm))
+        return ex, b, c, r
+
+    def _loop_body(self, s, st, once):
         head = st
         self.muted += 1
         try:
@@ -779,6 +805,7 @@ class Collect(Flow):
         super().__init__(F, fn, mode)
         self.want = want
         self.at = []  # (node, state) in visiting order, final pass only
+        self.loops_at = {}
         self.modevars = {}  # local var id -> mode for which the var is non-null/true
 
     def on_decl(self, v, st):
@@ -801,6 +828,7 @@ class Collect(Flow):
         st = set_facts(n, st)
         if not self.muted and self.want(n):
             self.at.append((n, st))
+            self.loops_at[id(n)] = tuple(self.loop_stack)
         return st
 
     def by_node(self):
